@@ -137,9 +137,20 @@ def _classifier(fx, it, genv, n, val):
     k = [i for i, s in enumerate(fn.body) if isinstance(s, ast.FunctionDef) and len(s.args.args) == 2 and not s.args.vararg and not s.args.kwonlyargs]
     if len(k) == 1 and fn.body[k[0]].name == 'get_bit':       # the reference name (canon restores it after a mere renaming)
         e = dict(genv, **{p: v for p, v in zip(src.params(fn), (m, (n, n), 1, 0))})
+        # does get_bit answer for positions outside the matrix itself (the reference does), or does its caller?
+        inside_only = not any(isinstance(x, ast.Attribute) and x.attr == 'TYPE_QUIET_ZONE' for x in ast.walk(fn.body[k[0]]))
         try:
             it.block(fn.body[:k[0] + 1], e)
-            return e[fn.body[k[0]].name]
+            gb = e[fn.body[k[0]].name]
+            if not inside_only:
+                return gb
+            if n > 45:
+                # the quiet zone of the large sizes is not probed (the whole iterator is interpreted for the sizes up to 45)
+                return lambda i, j: gb(i, j) if 0 <= i < n and 0 <= j < n else None
+            rows_ = [list(r) for r in FuncVal(fn, genv, it)(m, (n, n), 1, 2)]
+            if len(rows_) != n + 4 or any(len(r) != n + 4 for r in rows_):
+                raise Unknown(f'matrix_iter_verbose yields {len(rows_)} rows for size {n} with border 2')
+            return lambda i, j: gb(i, j) if 0 <= i < n and 0 <= j < n else rows_[i + 2][j + 2]
         except Unknown:
             pass
     rows = [list(r) for r in FuncVal(fn, genv, it)(m, (n, n), 1, 2)]
@@ -199,7 +210,7 @@ def r3(fx):
                     if got != want:
                         bad.setdefault((kind, got), []).append((i, j))
             for out_i, out_j in ((-1, 0), (0, -1), (n, 0), (0, n), (-2, n + 1)):
-                if gb(out_i, out_j) != qz:
+                if gb(out_i, out_j) is not None and gb(out_i, out_j) != qz:
                     bad.setdefault(('quiet zone', gb(out_i, out_j)), []).append((out_i, out_j))
 
             def anch(rc):
